@@ -321,11 +321,29 @@ QuirksFor(defs, body) ==
         /\ ("wordstart" \notin A => q.wsN = TRUE)
         /\ ("wordend"   \notin A => (q.we0 = TRUE /\ q.weN = TRUE))}
 
+(* whole line / whole word started where no line / word starts (an empty    *)
+(* line; a text that begins with a non-word byte) are undocumented cells:   *)
+(* the answer is not firm on such texts                                     *)
+RECURSIVE WholesOf(_), WholesOfSeq(_)
+WholesOfSeq(es) == UNION {WholesOf(es[i]) : i \in 1..Len(es)}
+WholesOf(e) ==
+  CASE e.k = "whole" -> {e.c}
+    [] e.k = "seq"  -> WholesOfSeq(e.es)
+    [] e.k = "or"   -> WholesOf(e.l) \cup WholesOf(e.r)
+    [] e.k = "loop" -> WholesOf(e.body)
+    [] e.k = "cap"  -> WholesOf(e.body)
+    [] e.k = "sub"  -> WholesOfSeq(e.es)
+    [] OTHER        -> {}
+WholeFirm(t, W) ==
+  /\ ("line" \in W => (t[1] # 10 /\ (\A i \in 1..(Len(t) - 1) : ~(t[i] = 10 /\ t[i + 1] = 10)) /\ (\A j \in 1..Len(t) : t[j] # 13)))
+  /\ ("word" \in W => IsWordByte(t[1]))
+
 (* The specification's answer for one command on one text: the match list   *)
 (* and whether it is independent of the quirk cells.                        *)
 Expect(t, defs, body, amt) ==
   IF t = <<>> THEN [ms |-> <<>>, firm |-> TRUE]
   ELSE LET R  == {Window(FindAll(Ctx(t, defs, body, q), body), amt) : q \in QuirksFor(defs, body)}
            r0 == Window(FindAll(Ctx(t, defs, body, QuirkCode), body), amt)
-       IN [ms |-> r0, firm |-> Cardinality(R) = 1]
+           W  == WholesOfSeq(body) \cup UNION {WholesOfSeq(defs[i].es) : i \in 1..Len(defs)}
+       IN [ms |-> r0, firm |-> Cardinality(R) = 1 /\ WholeFirm(t, W)]
 =============================================================================
